@@ -22,6 +22,7 @@ LEVEL = "other"
 def run(chk):
     cfgs = ["base", "z"]
     chk.configs = cfgs
+    chk.rule("BOUNDS.minmax", "GetBounds (behind the bounding-box shortcuts) updates min and max with every vertex, the first one included")
     chk.rule("T.location", "GetLocation(rec, pt, loc): strictly inside -> true/Inside; on the boundary -> false and an edge the point lies on; "
              "outside -> true and a side the point lies beyond; all 25 weak orderings, comparisons verified uniform")
     chk.rule("T.rect", "Rect::Intersects == closed boxes meet, Rect::IsEmpty == zero or negative extent on every ordering; RectClipLines64::Execute: "
@@ -35,6 +36,7 @@ def run(chk):
     for cfg in cfgs:
         db = AstDB(cfg)
         e3.location_table(db, chk, cfg)
+        e3.bounds_update_table(db, chk, cfg)
         e3.rect_shortcuts(db, chk, cfg)
         e3.lines_shortcuts(db, chk, cfg)
         e3.lines_dispatch(db, chk, cfg)
